@@ -110,15 +110,30 @@ impl ProcessState {
         };
         #[cfg(feature = "verif-hooks")]
         crate::verif::point("init-check", "");
-        let must_create = !dbfile.exists();
-        let mut db: Connection;
+        let mut db: Connection = connect(&e, &dbfile)
+            .map_err(|e| RedoError::new(format!("could not connect: {}", e)))?;
         {
-            let tx = if !must_create {
-                db = connect(&e, &dbfile)
-                    .map_err(|e| RedoError::new(format!("could not connect: {}", e)))?;
-                #[cfg(feature = "verif-hooks")]
-                crate::verif::point("init-read", "");
-                let tx = db.transaction().map_err(RedoError::opaque_error)?;
+            #[cfg(feature = "verif-hooks")]
+            crate::verif::point("init-begin", "");
+            // Whether the schema still has to be created is decided by looking
+            // inside the database, under one immediate transaction that also
+            // allocates the run id.  Deciding by the mere existence of the file
+            // (and unlinking it before creating it) let two commands that start
+            // together delete each other's new database or find it without
+            // tables, and left a database that a killed first run had created
+            // but not yet filled unusable for ever.
+            let tx = db
+                .transaction_with_behavior(TransactionBehavior::Immediate)
+                .map_err(RedoError::opaque_error)?;
+            let has_schema: i64 = tx
+                .query_row(
+                    "select count(*) from sqlite_master \
+                        where type = 'table' and name = 'Schema'",
+                    [],
+                    |row| row.get(0),
+                )
+                .map_err(|e| RedoError::wrap(e, "schema check failed"))?;
+            if has_schema != 0 {
                 let ver: Option<i32> = tx
                     .query_row("select version from Schema", [], |row| row.get(0))
                     .optional()
@@ -131,18 +146,7 @@ impl ProcessState {
                         SCHEMA_VER
                     )));
                 }
-                tx
             } else {
-                #[cfg(feature = "verif-hooks")]
-                crate::verif::point("init-unlink", "");
-                helpers::unlink(&dbfile).map_err(RedoError::opaque_error)?;
-                #[cfg(feature = "verif-hooks")]
-                crate::verif::point("init-connect", "");
-                db = connect(&e, &dbfile)
-                    .map_err(|e| RedoError::new(format!("could not connect: {}", e)))?;
-                #[cfg(feature = "verif-hooks")]
-                crate::verif::point("init-create", "");
-                let tx = db.transaction().map_err(RedoError::opaque_error)?;
                 tx.execute(
                     "create table Schema \
                         (version int)",
@@ -191,14 +195,9 @@ impl ProcessState {
                     .map_err(|e| RedoError::wrap(e, "failed to insert initial Runid"))?;
                 tx.execute("insert into Files (name) values (?)", params![ALWAYS])
                     .map_err(|e| RedoError::wrap(e, "failed to insert ALWAYS file"))?;
-                tx
-            };
+            }
 
             if e.runid.is_none() {
-                #[cfg(feature = "verif-hooks")]
-                if !must_create {
-                    crate::verif::point("init-runid", "");
-                }
                 tx.execute(
                     "insert into Runid values \
                         ((select max(id)+1 from Runid))",
